@@ -21,6 +21,7 @@ type Env struct {
 	err   error
 	idx   *Val // $idx
 	vis   map[string]*Val
+	pats  *patCollector
 }
 
 func (e *Env) with(st *State) *Env {
@@ -164,19 +165,36 @@ func (e *Env) eval(x SExpr) *Val {
 		ne := e
 		var decl []string
 		var guards []string
+		pats := &patCollector{byVar: map[string][]string{}}
 		for _, v := range n.Vars {
 			t, err := e.resolveType(v.Type)
 			if err != nil {
 				return e.fail("quantifier type %q: %v", v.Type, err)
 			}
 			name := fmt.Sprintf("q_%s_%d", v.Name, e.depth)
-			ne = ne.bind(v.Name, &Val{T: t, S: name})
+			bv := &Val{T: t, S: name}
+			// a variable used as an index into a slice is re-expressed as an absolute
+			// element address so that triggers are arithmetic-free selects
+			if isIntT(t) && e.vc.absQuant {
+				if base := findIndexBase(n.Body, v.Name, n.Vars); base != nil {
+					be := ne
+					bval := be.eval(base)
+					if be.err == nil && bval.S != "" && e.vc.sortOfVal(bval) == "Slice" {
+						bv = &Val{T: t, S: "(- " + name + " (sptr " + bval.S + "))", absName: name, absBase: bval.S}
+					} else if deref(bval.T) != nil {
+						// pointer to slice (e.g. *[]T): no rewriting
+					}
+					be.err = nil
+				}
+			}
+			ne = ne.bind(v.Name, bv)
 			decl = append(decl, "("+name+" "+u.sortOf(t)+")")
 			if isIntT(t) && t != tInt {
-				guards = append(guards, inRange(name, t))
+				guards = append(guards, inRange(bv.S, t))
 			}
 		}
 		ne.depth = e.depth + 1
+		ne.pats = pats
 		body := ne.eval(n.Body)
 		if ne.err != nil && e.err == nil {
 			e.err = ne.err
@@ -190,6 +208,28 @@ func (e *Env) eval(x SExpr) *Val {
 			}
 		} else if len(guards) > 0 {
 			b = and(append(guards, b)...)
+		}
+		// explicit multi-pattern: one select per absolute-address variable
+		pat := ""
+		var terms []string
+		complete := true
+		for _, v := range n.Vars {
+			name := fmt.Sprintf("q_%s_%d", v.Name, e.depth)
+			if ts := pats.byVar[name]; len(ts) > 0 {
+				terms = append(terms, ts[0])
+			} else {
+				complete = false
+			}
+		}
+		if complete && len(terms) > 0 {
+			pat = " :pattern (" + strings.Join(terms, " ") + ")"
+			// alternative patterns from the other heaps mentioned with the first variable
+			name0 := fmt.Sprintf("q_%s_%d", n.Vars[0].Name, e.depth)
+			for _, alt := range pats.byVar[name0][1:] {
+				rest := append([]string{alt}, terms[1:]...)
+				pat += " :pattern (" + strings.Join(rest, " ") + ")"
+			}
+			return &Val{T: tBool, S: "(" + q + " (" + strings.Join(decl, " ") + ") (! " + b + pat + "))"}
 		}
 		return &Val{T: tBool, S: "(" + q + " (" + strings.Join(decl, " ") + ") " + b + ")"}
 	case *SCall:
@@ -258,6 +298,16 @@ func (e *Env) local(name string) *Val {
 			continue
 		}
 		if k == want {
+			if a.Heap {
+				// escaping local: lives in the heap of its type
+				r, ok := e.fr.regs[a]
+				if !ok || r.S == "" {
+					return e.fail("local %q is not live here", name)
+				}
+				el := deref(a.Type())
+				_, h := e.vc.heap(e.st, el)
+				return &Val{T: el, S: "(select " + h + " " + r.S + ")"}
+			}
 			c := e.fr.cellOf[a]
 			if c == nil {
 				return e.fail("local %q is not live here", name)
@@ -318,6 +368,20 @@ func (e *Env) index(b, i *Val) *Val {
 	switch bt := types.Unalias(b.T).Underlying().(type) {
 	case *types.Slice:
 		_, h := vc.heap(e.st, bt.Elem())
+		if i.absName != "" {
+			addr := i.absName
+			if i.absBase != b.S {
+				addr = fmt.Sprintf("(+ %s (- (sptr %s) (sptr %s)))", i.absName, b.S, i.absBase)
+				if sameSptr(b.S, i.absBase) {
+					addr = i.absName
+				}
+			}
+			t := "(select " + h + " " + addr + ")"
+			if e.pats != nil && addr == i.absName {
+				e.pats.add(i.absName, t)
+			}
+			return &Val{T: bt.Elem(), S: t}
+		}
 		return &Val{T: bt.Elem(), S: fmt.Sprintf("(select %s (idx (sptr %s) %s))", h, b.S, i.S)}
 	case *types.Map:
 		_, _, val, _ := vc.mapArrays(e.st, bt)
@@ -562,6 +626,23 @@ func (e *Env) call(n *SCall) *Val {
 		return e.visited("", n)
 	case "inst":
 		return &Val{T: tInt, S: "(tinst " + arg(0).S + ")"}
+	case "addrOf":
+		// addrOf(s, i): pointer to element i of slice s
+		if !need(2) {
+			return e.fail("")
+		}
+		sv, iv := arg(0), arg(1)
+		if deref(sv.T) != nil {
+			sv = e.derefIfPtr(sv)
+		}
+		et := sliceElem(sv.T)
+		if et == nil {
+			return e.fail("addrOf of non-slice")
+		}
+		if iv.absName != "" && iv.absBase == sv.S {
+			return &Val{T: types.NewPointer(et), S: iv.absName}
+		}
+		return &Val{T: types.NewPointer(et), S: "(idx (sptr " + sv.S + ") " + iv.S + ")"}
 	case "zero":
 		tl, ok := n.Args[0].(*STypeLit)
 		if !ok {
@@ -760,4 +841,84 @@ func (e *Env) mcall(n *SMCall) *Val {
 		return e.vc.pureApp(e.st, pf, as)
 	}
 	return e.fail("unknown pure method %s", name)
+}
+
+type patCollector struct{ byVar map[string][]string }
+
+func (p *patCollector) add(v, term string) {
+	for _, t := range p.byVar[v] {
+		if t == term {
+			return
+		}
+	}
+	p.byVar[v] = append(p.byVar[v], term)
+}
+
+// sameSptr: cheap syntactic check that two slice terms have the same base pointer.
+func sameSptr(a, b string) bool { return a == b }
+
+// findIndexBase returns the slice expression X of the first X[v] in body where X
+// does not mention any variable bound by the same quantifier.
+func findIndexBase(body SExpr, v string, bound []SVar) SExpr {
+	var found SExpr
+	mentions := func(x SExpr) bool {
+		m := false
+		walkSpec(x, func(y SExpr) {
+			if id, ok := y.(*SIdent); ok {
+				for _, b := range bound {
+					if b.Name == id.Name {
+						m = true
+					}
+				}
+			}
+		})
+		return m
+	}
+	walkSpec(body, func(y SExpr) {
+		if found != nil {
+			return
+		}
+		if ix, ok := y.(*SIndex); ok {
+			if id, ok := ix.I.(*SIdent); ok && id.Name == v && !mentions(ix.X) {
+				found = ix.X
+			}
+		}
+	})
+	return found
+}
+
+func walkSpec(x SExpr, f func(SExpr)) {
+	if x == nil {
+		return
+	}
+	f(x)
+	switch n := x.(type) {
+	case *sParen:
+		walkSpec(n.SExpr, f)
+	case *SUnary:
+		walkSpec(n.X, f)
+	case *SBinary:
+		walkSpec(n.X, f)
+		walkSpec(n.Y, f)
+	case *SCall:
+		for _, a := range n.Args {
+			walkSpec(a, f)
+		}
+	case *SMCall:
+		walkSpec(n.X, f)
+		for _, a := range n.Args {
+			walkSpec(a, f)
+		}
+	case *SSel:
+		walkSpec(n.X, f)
+	case *SIndex:
+		walkSpec(n.X, f)
+		walkSpec(n.I, f)
+	case *SSlice:
+		walkSpec(n.X, f)
+		walkSpec(n.Lo, f)
+		walkSpec(n.Hi, f)
+	case *SQuant:
+		walkSpec(n.Body, f)
+	}
 }
